@@ -50,8 +50,19 @@ pub fn run(ctx: &Ctx) -> i32 {
         let names = c.built.tables.terminal_names.len();
         let err_index = (names - 1) as u16;
         let mut lexeme: BTreeMap<u16, String> = BTreeMap::new();
+        // terminals on the state's %skip list never reach the lookahead buffer: they are not part of
+        // the buffer alphabet (their being ignored is C17's subject)
+        let skipped: Vec<usize> = c.g.states[0]
+            .skip
+            .iter()
+            .filter_map(|n| c.g.rules.iter().find(|r| r.name == *n))
+            .filter_map(|r| if let Some(crate::gram::Factor::T(t, _)) = r.alts.first().and_then(|a| a.first()) { Some(c.g.canon_term(*t)) } else { None })
+            .collect();
         for (idx, t) in c.term_of_index.iter().enumerate() {
             if let Some(t) = t {
+                if skipped.contains(&c.g.canon_term(*t)) {
+                    continue;
+                }
                 lexeme.insert(idx as u16, c.g.terms[*t].samples[0].clone());
             }
         }
